@@ -44,3 +44,34 @@ Fixpoint value_of_yaml (y : yaml) {struct y} : res value :=
 Definition mapping_of_yaml (y : yaml) : res mapping :=
   v <- value_of_yaml y ;;
   match v with VMap m => Ok m | _ => Err (EYamlShape "parameters") end.
+
+(** Value::try_from_yaml / Mapping::try_from_yaml: the fallible conversion used for inventory
+    files (Node::from_str): unsupported values and failing insertions are errors. *)
+Fixpoint try_value_of_yaml (y : yaml) {struct y} : res value :=
+  match y with
+  | YNull => Ok VNull
+  | YBool b => Ok (VBool b)
+  | YNum n => Ok (VNum n)
+  | YStr s => Ok (VStr s)
+  | YSeq l =>
+      rmap VSeq ((fix go (l : list yaml) : res (list value) :=
+                    match l with
+                    | [] => Ok []
+                    | x :: xs => v <- try_value_of_yaml x ;; vs <- go xs ;; Ok (v :: vs)
+                    end) l)
+  | YMap l =>
+      rmap VMap ((fix go (l : list (yaml * yaml)) (acc : mapping) : res mapping :=
+                    match l with
+                    | [] => Ok acc
+                    | (k, v) :: l' =>
+                        kv <- try_value_of_yaml k ;;
+                        vv <- try_value_of_yaml v ;;
+                        acc' <- m_insert acc kv vv ;;
+                        go l' acc'
+                    end) l [])
+  | YTagged t _ => Err (ETagged t)
+  end.
+
+Definition try_mapping_of_yaml (y : yaml) : res mapping :=
+  v <- try_value_of_yaml y ;;
+  match v with VMap m => Ok m | _ => Err (EYamlShape "parameters") end.
